@@ -15,7 +15,7 @@ inductive PyErr where
 
 abbrev PyRes (α : Type) := Except PyErr α
 
-instance {α : Type} [DecidableEq α] : DecidableEq (PyRes α) := fun a b =>
+instance {ε α : Type} [DecidableEq ε] [DecidableEq α] : DecidableEq (Except ε α) := fun a b =>
   match a, b with
   | .ok x, .ok y => if h : x = y then isTrue (by rw [h]) else isFalse (by intro e; cases e; exact h rfl)
   | .error x, .error y => if h : x = y then isTrue (by rw [h]) else isFalse (by intro e; cases e; exact h rfl)
